@@ -125,6 +125,15 @@ func configs04(tier string) []xplore.Config {
 	// delivering what the subscriber may see
 	aclCfgs := []xplore.Config{{Name: "server WithACL denying t2 | stream *:[a] user=u | W(t2)=upd a/b;upd a/b, then idle past every time-out", Bound: bound,
 		Data: cfg08{stall: "never", script: []wop{{"upd", "a/b"}, {"upd", "a/b"}}, acl: true}}}
+	// a leaf whose value is in the deprecated Update.value encoding, written
+	// twice or three times (the second write may find the first still pending in
+	// a subscriber's queue: a coalesced response carries the newest value all the same)
+	for _, sc := range [][]wop{{{"depr", "a/v"}, {"depr", "a/v"}}, {{"depr", "a/v"}, {"depr", "a/v"}, {"depr", "a/v"}}, {{"depr", "a/v"}, {"upd", "a/b"}, {"depr", "a/v"}}} {
+		for _, sp := range subs[:2] {
+			aclCfgs = append(aclCfgs, xplore.Config{Name: fmt.Sprintf("W(t1)=%s | %s (deprecated value encoding)", scriptName(sc), sp), Bound: bound,
+				Data: cfg04{writers: []writer{{"t1", sc}}, subs: []subSpec{sp}}})
+		}
+	}
 	// a delete that removes MANY leaves (five, six) of a container while a newer
 	// leaf under the same path survives it: however the removals are announced,
 	// a subscriber's replay keeps the survivor
